@@ -215,10 +215,7 @@ PROPS = {
                            'no_stale_read_reachable', 'has_returns_view_always', 'iter_returns_view_metered',
                            'iter_lists_only_views', 'iter_misses_only_refused', 'iter_complete_when_gas_suffices',
                            'reads_change_only_gas', 'view_set_always', 'accepted_set_is_read_back_always',
-                           'view_del_always', 'discarded_session_noop_always',
-                           'iter_lists_exactly_visible_keys', 'iter_lists_exactly_visible_keys_when_gas_suffices',
-                           'iter_exactly_when_gas_suffices', 'iter_lists_only_visible', 'iter_lists_visible_unless_refused',
-                           'iter_sees_pending_writes', 'iter_sees_session_writes', 'iter_skips_pending_deletes', 'iter_skips_deleted'],
+                           'view_del_always', 'discarded_session_noop_always'],
         run=run_c09,
         replay=replay_olh('kv'),
         level='proof',
